@@ -157,6 +157,37 @@ theorem slice_full_partial {s : KStr} (hw : s.WF) (hf : s.form = .full) {a b : N
 
 example : ∃ t, héFull.withBounds 1 3 = some t ∧ t.bytes = [0xC3, 0xA9] := by decide
 
+/-- **with_bounds_own_end_witness** (F-C15-10, Rust API level): on a slice, `with_bounds` is validated against
+the shared buffer only — a request beyond the slice's own end succeeds and returns bytes that are not part
+of the string (`KString::from("abcdef").with_bounds(0..2).unwrap().with_bounds(0..4)` is `"abcd"`); with
+requests/C15-fix-8.diff applied it is refused. The VM never asks beyond the end (`range_indices_in_bounds`,
+`validate_index`, the size checks of the unpacking instructions), so scripts cannot observe it. -/
+theorem with_bounds_own_end_witness :
+    ((KStr.ofSlice [97, 98, 99, 100, 101, 102] 0 2).withBoundsApi 0 4).map KStr.bytes = some [97, 98, 99, 100] ∧
+    ((KStr.ofSlice [97, 98, 99, 100, 101, 102] 0 2).withBoundsApi 0 4 true).map KStr.bytes = none := by decide
+
+/-- with the own-end check every successful API-level re-slice is inside the string, so `slice_valid`
+applies without a side condition -/
+theorem with_bounds_api_fixed {s t : KStr} {a b : Nat} (h : s.withBoundsApi a b true = some t) :
+    b ≤ s.len ∧ s.withBounds a b = some t := by
+  simp only [KStr.withBoundsApi] at h
+  split at h
+  · cases h
+  · rename_i hc
+    exact ⟨by simp at hc; omega, h⟩
+
+def nullCount : Res → Nat
+  | .tuple xs => (xs.filter fun r => match r with | .null => true | _ => false).length
+  | _ => 0
+
+/-- **unpack_null_witness** (F-C15-9): the unpacking instructions (`TempIndex`, `SliceFrom`, `SliceTo`) turn a
+cut through a character into `null` — `match 'aé'` with `(rest..., last)` binds both to null — where `s[i]`
+raises an error; with requests/C15-fix-7.diff applied (`strict`) it is the same error -/
+theorem unpack_null_witness :
+    nullCount (unpackTail (KStr.ofSlice [0x61, 0xC3, 0xA9] 0 3) 1) = 2 ∧
+    errKind (unpackTail (KStr.ofSlice [0x61, 0xC3, 0xA9] 0 3) 1 true) = some "utf8" ∧
+    nullCount (unpackHead (KStr.ofSlice [0x61, 0xC3, 0xA9] 0 3) 1) = 0 := by decide
+
 /-! ## Well-formedness is preserved (`utf8_closed`) -/
 
 /-- cutting at character boundaries -/
@@ -598,6 +629,15 @@ theorem fmtspec_cluster_fill_quirk :
     errOf (parse gToy [101, 0xCC, 0x81, 60, 53]) = some (.unexpectedToken [0xCC, 0x81]) ∧
     okOpts (parse gToy [97, 0xCC, 0x81, 60, 53]) =
       some { align := .left, minWidth := some 5, fill := some [97, 0xCC, 0x81] } := by decide
+
+/-- with requests/C15-fix-6.diff applied (`clusterFirst`) a fill cluster followed by an alignment character
+is a fill whatever its first character is (F-C15-8) -/
+theorem fmtspec_cluster_fill_fixed :
+    okOpts (parse gToy [101, 0xCC, 0x81, 60, 53] true) =
+      some { align := .left, minWidth := some 5, fill := some [101, 0xCC, 0x81] } ∧
+    okOpts (parse gToy [53, 0xCC, 0x81, 94, 55] true) =
+      some { align := .center, minWidth := some 7, fill := some [53, 0xCC, 0x81] } ∧
+    okOpts (parse gToy [42, 94, 56, 46, 50, 63] true) = okOpts (parse gToy [42, 94, 56, 46, 50, 63]) := by decide
 
 /-! ## to_number -/
 
